@@ -15,10 +15,10 @@ import (
 
 	chordImpl "go.miragespace.co/specter/chord"
 	"go.miragespace.co/specter/kv/memory"
-	"go.miragespace.co/specter/rtt"
 	"go.miragespace.co/specter/spec/chord"
 	"go.miragespace.co/specter/spec/mocks"
 	"go.miragespace.co/specter/spec/protocol"
+	"go.miragespace.co/specter/spec/rtt"
 	"verif/harness/hlib"
 )
 
@@ -195,7 +195,7 @@ type lapsedLease struct {
 // The case is self-contained: it prepares the lease / prefix state it names and restores it afterwards.
 func (L *live) run(r *hlib.Run, ns string, m liveMethod, sc string, ttl time.Duration, ktok string, pre *lapsedLease) {
 	ln := L.nodes[ns]
-	if ln == nil || !liveScenarioOK(ns, m, sc) {
+	if ln == nil || !liveScenarioOK(ns, m, sc) || (m.name == "Acquire" && sc == "lapsed" && ttl >= time.Second) {
 		return
 	}
 	ctx := L.g.ctx
@@ -422,8 +422,8 @@ func (L *live) all(r *hlib.Run, rng *hlib.Rng, boundaryKey, randKey func() strin
 			return -time.Duration(rng.U64() >> uint(1+rng.Intn(62)))
 		case 2: // [1s, 3s)
 			return time.Second + time.Duration(rng.Intn(int(2*time.Second)))
-		default: // large
-			return time.Duration(rng.U64() >> uint(1+rng.Intn(40)))
+		default: // large (up to ~2 years: the lease's end must stay a representable time)
+			return time.Duration(rng.U64() >> uint(8+rng.Intn(33)))
 		}
 	}
 	keys := []string{"a1", "a0", "u9"}
@@ -511,7 +511,10 @@ func (L *live) all(r *hlib.Run, rng *hlib.Rng, boundaryKey, randKey func() strin
 	// ---- the leases whose time is up by now ----
 	for i, lc := range lapsed {
 		ttl := ttls[(i*5)%len(ttls)]
-		if i%3 == 2 {
+		if i%3 == 2 { // refused ttls only: a granted Acquire would leave another state for the second call
+			if ttl >= time.Second {
+				ttl = boundaryTTLs[i%9]
+			}
 			L.run(r, "active", acquire, "lapsed", ttl, lc.ktok, lc.pre)
 		} else {
 			if i%3 == 1 && ttl < time.Second {
